@@ -54,3 +54,55 @@ pub proof fn lemma_take_bits_u32(x: u32, k: u32)
     assert((x & !(0xffff_ffffu32 << k)) == x % (1u32 << k)) by (bit_vector) requires 1 <= k <= 8;
     assert((x >> k) == x / (1u32 << k)) by (bit_vector) requires 1 <= k <= 8;
 }
+
+/// one iteration of BitReader::get: k bits move from the byte buffer (x0, c0 bits) to the result (w0, a0 bits)
+pub proof fn lemma_get_step(w0: u32, a0: u32, x0: u32, c0: u32, k: u32)
+    requires 1 <= k <= 8, k <= c0 <= 8, a0 + k <= 32, (w0 as nat) < pow2(a0 as nat),
+    ensures ({
+        let lo: u32 = x0 & !(u32::MAX << k);
+        let w1: u32 = w0 | (lo << a0);
+        &&& (w1 as nat) < pow2((a0 + k) as nat)
+        &&& lsb_bits(w1 as nat, (a0 + k) as nat) + lsb_bits((x0 >> k) as nat, (c0 - k) as nat)
+                == lsb_bits(w0 as nat, a0 as nat) + lsb_bits(x0 as nat, c0 as nat)
+    }),
+{
+    let lo: u32 = x0 & !(u32::MAX << k);
+    lemma_take_bits_u32(x0, k);
+    lemma_pow2_pos(k as nat);
+    lemma_mod_bound(x0 as int, pow2(k as nat) as int);
+    lemma_or_shift_u32(w0, lo, a0, k);
+    lemma_lsb_bits_add(w0 as nat, lo as nat, a0 as nat, k as nat);
+    lemma_lsb_split(x0 as nat, k as nat, c0 as nat);
+    let w1: u32 = w0 | (lo << a0);
+    assert(lsb_bits(w1 as nat, (a0 + k) as nat) + lsb_bits((x0 >> k) as nat, (c0 - k) as nat)
+        =~= lsb_bits(w0 as nat, a0 as nat) + (lsb_bits(lo as nat, k as nat) + lsb_bits((x0 >> k) as nat, (c0 - k) as nat)));
+}
+
+/// lemma_get_step with the unread bytes attached (the shape of the BitReader view)
+pub proof fn lemma_get_step_tail(w0: u32, a0: u32, x0: u32, c0: u32, k: u32, tail: Seq<bool>)
+    requires 1 <= k <= 8, k <= c0 <= 8, a0 + k <= 32, (w0 as nat) < pow2(a0 as nat),
+    ensures ({
+        let lo: u32 = x0 & !(u32::MAX << k);
+        let w1: u32 = w0 | (lo << a0);
+        &&& (w1 as nat) < pow2((a0 + k) as nat)
+        &&& lsb_bits(w1 as nat, (a0 + k) as nat) + (lsb_bits((x0 >> k) as nat, (c0 - k) as nat) + tail)
+                == lsb_bits(w0 as nat, a0 as nat) + (lsb_bits(x0 as nat, c0 as nat) + tail)
+    }),
+{
+    lemma_get_step(w0, a0, x0, c0, k);
+    let lo: u32 = x0 & !(u32::MAX << k);
+    let w1: u32 = w0 | (lo << a0);
+    let l1 = lsb_bits(w1 as nat, (a0 + k) as nat); let r1 = lsb_bits((x0 >> k) as nat, (c0 - k) as nat);
+    let l0 = lsb_bits(w0 as nat, a0 as nat); let r0 = lsb_bits(x0 as nat, c0 as nat);
+    assert(l1 + (r1 + tail) =~= (l1 + r1) + tail);
+    assert(l0 + (r0 + tail) =~= (l0 + r0) + tail);
+}
+
+/// loading the next byte into an empty bit buffer does not change the view
+pub proof fn lemma_load_byte(stale: u32, rest0: Seq<u8>)
+    requires rest0.len() >= 1,
+    ensures lsb_bits(stale as nat, 0) + bytes_bits(rest0) == lsb_bits(rest0[0] as nat, 8) + bytes_bits(rest0.skip(1)),
+{
+    lemma_bytes_bits_skip(rest0);
+    assert(lsb_bits(stale as nat, 0) + bytes_bits(rest0) =~= bytes_bits(rest0));
+}
